@@ -26,7 +26,9 @@ FLOORS = {'quick': {'__nontrivial__': 500, 'multi-place': 3000, 'judged': 4000, 
 N = {'quick': 900, 'thorough': 8000}
 PLACES = {'t1': 'int1', 't2': 'int1', 't3': 'int2', 't4': 'int2'}
 CFG = model.Cfg(places=PLACES, always_alias=True, correlated=False, cte=True, window=False, star=True,
-                limit_needs_total_order=False, subselect_target=True)
+                limit_needs_total_order=False, subselect_target=True, extra_places={'t1': ['int2']},
+                order_by_source=True)
+DATA_TABLES = sorted(model.SCHEMA) + ['int2.t1']
 CATALOGS = {
     'names': dict(integrations=['int1', 'int2'], default_namespace='mindsdb'),
     'dicts': dict(integrations=[{'name': 'int1', 'class_type': 'sql', 'type': 'data'},
@@ -118,6 +120,11 @@ def plan_features(plan, tree):
     out = set()
     fetches = [s for s in plan.steps if type(s).__name__ == 'FetchDataframeStep']
     joins = [s for s in plan.steps if type(s).__name__ == 'JoinStep']
+    for st_ in plan.steps:
+        if type(st_).__name__ == 'SubSelectStep' and st_.table_name is not None and joins \
+                and getattr(st_.query, 'where', None) is not None:
+            if any(is_semijoin_filter(n, plan) for n in walk(st_.query.where)):
+                out.add('fetch:semijoin-filter')
     for f in fetches:
         q = f.query
         if q is None or type(q).__name__ != 'Select':
@@ -190,11 +197,16 @@ def neutralise(plan, what, orig=None):
         if type(last).__name__ == 'QueryStep' and last.query.offset is None:
             last.query.offset = copy.deepcopy(orig.offset)
     for s in p.steps:
-        if type(s).__name__ == 'SubSelectStep' and has_join and 'filters' in what and s.table_name is not None:
+        if type(s).__name__ == 'SubSelectStep' and has_join and s.table_name is not None \
+                and ('filters' in what or 'semijoin' in what):
             q = s.query
             if len(q.targets) == 1 and type(q.targets[0]).__name__ == 'Star' and not q.group_by and not q.order_by \
                     and q.limit is None and not q.distinct:
-                q.where = None          # the `SELECT * WHERE <pushed conjuncts>` wrapper of a joined sub-select
+                # the `SELECT * WHERE <pushed conjuncts>` wrapper of a joined sub-select / CTE
+                if 'filters' in what:
+                    q.where = None
+                elif q.where is not None:
+                    q.where = strip_semijoin(q.where, plan)
             continue
         if type(s).__name__ != 'FetchDataframeStep' or type(s.query).__name__ != 'Select' or not has_join:
             continue
@@ -207,19 +219,22 @@ def neutralise(plan, what, orig=None):
         if 'filters' in what:
             q.where = None
         elif 'semijoin' in what and q.where is not None:
-            def strip(n):
-                if isinstance(n, ast.BinaryOperation) and n.op == 'and':
-                    a, b = strip(n.args[0]), strip(n.args[1])
-                    if a is None:
-                        return b
-                    if b is None:
-                        return a
-                    return ast.BinaryOperation('and', args=[a, b])
-                if is_semijoin_filter(n, plan):
-                    return None
-                return n
-            q.where = strip(q.where)
+            q.where = strip_semijoin(q.where, plan)
     return p
+
+
+def strip_semijoin(n, plan):
+    from mindsdb_sql.parser import ast
+    if isinstance(n, ast.BinaryOperation) and n.op == 'and':
+        a, b = strip_semijoin(n.args[0], plan), strip_semijoin(n.args[1], plan)
+        if a is None:
+            return b
+        if b is None:
+            return a
+        return ast.BinaryOperation('and', args=[a, b])
+    if is_semijoin_filter(n, plan):
+        return None
+    return n
 
 
 def verdict(truth, got, unlimited, meta):
@@ -339,10 +354,57 @@ def judge(case, col):
     return out
 
 
+ALL_TABLES = [('int1', 't1'), ('int2', 't1'), ('int1', 't2'), ('int2', 't3'), ('int2', 't4')]
+
+
+@st.composite
+def limit_shapes(draw):
+    """Join chains with ORDER BY on one table's (qualified) column and LIMIT [OFFSET]: the shapes whose ORDER BY /
+    LIMIT the join planner may push into the first fetch.  Same-named tables in different integrations are likely."""
+    n = draw(st.integers(2, 3))
+    tabs = [draw(st.sampled_from(ALL_TABLES)) for _ in range(n)]
+    als = [f'x{i + 1}' for i in range(n)]
+    tags = {'shape:limit'}
+    if len({t for _, t in tabs}) < len(tabs):
+        tags.add('table:same-name-other-place')
+    frm = f'{tabs[0][0]}.{tabs[0][1]} AS {als[0]}'
+    for i in range(1, n):
+        jk = draw(st.sampled_from(['LEFT JOIN', 'LEFT JOIN', 'LEFT JOIN', 'JOIN', 'LEFT OUTER JOIN']))
+        tags.add('join:' + jk)
+        li = draw(st.integers(0, i - 1))
+        frm += f' {jk} {tabs[i][0]}.{tabs[i][1]} AS {als[i]} ON ({als[li]}.a = {als[i]}.a)'
+    oi = draw(st.integers(0, n - 1))
+    ocol = draw(st.sampled_from([c for c, t in model.SCHEMA[tabs[oi][1]] if t == 'int']))
+    tcols = [f'{als[oi]}.{ocol} AS c0']
+    for i in range(n):
+        c = draw(st.sampled_from([c for c, t in model.SCHEMA[tabs[i][1]] if t == 'int']))
+        tcols.append(f'{als[i]}.{c} AS c{i + 1}')
+    where = ''
+    if draw(st.integers(0, 2)) == 0:
+        wi = draw(st.integers(0, n - 1))
+        where = f' WHERE ({als[wi]}.a {draw(st.sampled_from([">", "<=", "!="]))} {draw(st.integers(0, 2))})'
+        tags.add('where')
+    dr = draw(st.sampled_from(['', ' DESC', ' ASC']))
+    base = f'SELECT {", ".join(tcols)} FROM {frm}{where} ORDER BY {als[oi]}.{ocol}{dr}'
+    lim = f' LIMIT {draw(st.integers(1, 3))}'
+    if draw(st.integers(0, 3)) == 0:
+        lim += f' OFFSET {draw(st.integers(0, 2))}'
+        tags.add('offset')
+    tags |= {'order', 'order:source-column', 'limit', 'limit:partial-order'}
+    meta = {'order_cols': [0], 'total_order': False, 'limit': True, 'sql_unlimited': base, 'tags': sorted(tags),
+            'places': sorted({q for q, _ in tabs}), 'tables': sorted({f'{q}.{t}' for q, t in tabs}), 'types': ['int'] * (n + 1)}
+    return {'sql': base + lim, 'meta': meta}
+
+
 @st.composite
 def cases(draw):
+    if draw(st.integers(0, 7)) == 0:
+        c = draw(limit_shapes())
+        c['data'] = draw(model.table_data(DATA_TABLES))
+        c['catalog'] = draw(st.sampled_from(sorted(CATALOGS)))
+        return c
     c = draw(model.queries(CFG))
-    c['data'] = draw(model.table_data())
+    c['data'] = draw(model.table_data(DATA_TABLES))
     c['catalog'] = draw(st.sampled_from(sorted(CATALOGS)))
     return c
 
